@@ -178,6 +178,35 @@ func C18(e *Env) {
 			cmp(t, "concurrent open", ref, imgs[c], refAnn, anns[c])
 		}
 		run.Count("concurrent_opens", int64(k))
+		// the same unchanged directory opened in the *other* mode in between (a game directory can be had
+		// as a plain image too), and other directories: each mode's image stays what it was
+		if t.ps3 {
+			td := t
+			td.ps3 = false
+			var dvdRef []byte
+			var dvdAnn int64
+			other := fmt.Sprintf("/t%04d", (i+2)%len(trees))
+			for step, pth := range []string{"/***DVD***" + rel, "/***PS3***" + rel, "/***DVD***" + other, "/***PS3***" + rel, "/***DVD***" + rel, "/***PS3***" + other, "/***PS3***" + rel} {
+				img, ann, err := netFetchImage(addr, pth, e.Watchdog, 512<<20)
+				if strings.HasSuffix(pth, other) {
+					continue // whatever it is (it may not be a game directory): only there to be opened in between
+				}
+				if err != nil {
+					run.Violate("network-fetch-failed", "cross-mode", fmt.Sprintf("[%s] step %d (%s): %v", t.name, step, pth, err), map[string]any{"tree": t.name})
+					break
+				}
+				switch {
+				case strings.HasPrefix(pth, "/***PS3***"):
+					cmp(t, fmt.Sprintf("PS3-mode open after opens in the other mode (step %d)", step), ref, img, refAnn, ann)
+				case dvdRef == nil:
+					dvdRef, dvdAnn = img, ann
+				default:
+					cmp(td, fmt.Sprintf("plain-mode open after opens in PS3 mode (step %d)", step), dvdRef, img, dvdAnn, ann)
+				}
+			}
+			run.Count("cross_mode_histories", 1)
+			run.Sig("cross-mode history %s", t.kind)
+		}
 		if e.Bin != "" && i%e.Pick(5, 3) == 0 {
 			out := filepath.Join(e.Scratch, t.name+".cli.iso")
 			code, output := makeISOCLI(e.Bin, filepath.Join(parent, t.name), t.ps3, out)
